@@ -165,7 +165,10 @@ class RungeKuttaIntegrator(TableauIntegrator, abc.ABC):
         self.initial_time = D.ar_numpy.copy(initial_time)
         self.initial_rhs = None
         
-        if self.final_rhs is not None:
+        # the slope cached at the end of the previous step may only be reused when this call
+        # starts exactly where that step ended (it does not after a rejected or rolled-back step)
+        if self.final_rhs is not None and self.final_time is not None and bool(self.final_time == initial_time) \
+                and bool(D.ar_numpy.all(self.final_state == initial_state)):
             self.initial_rhs = self.final_rhs
             if self.is_fsal:
                 self.stage_values[...,0] = self.final_rhs
@@ -224,6 +227,8 @@ class RungeKuttaIntegrator(TableauIntegrator, abc.ABC):
                     )
         
         self._requires_high_precision = False
+        self.final_time = initial_time + self.dTime
+        self.final_state = initial_state + self.dState
         
         return timestep, (self.dTime, self.dState)
         
